@@ -166,7 +166,7 @@ func newC12Env() *c12Env {
 	other := newHarnessCA("", "other-ca")
 	log := &hitLog{}
 	env := &c12Env{stall: map[string]*fwd{}}
-	names := []string{"origin.test", "*.origin.test", "garbage.test", "untrusted.test", "expired.test", "wrongname.test"}
+	names := []string{"origin.test", "*.origin.test", "garbage.test", "untrusted.test", "expired.test", "wrongname.test", "oldtls.test"}
 	o := startOrigin("O", log, nil, faultResponder)
 	ot := startOrigin("OT", log, &tls.Config{Certificates: []tls.Certificate{ca.leaf(names, "")}}, faultResponder)
 	a := startOrigin("A", log, nil, faultResponder) // upstream proxy answering plain requests itself
@@ -179,6 +179,20 @@ func newC12Env() *c12Env {
 	untrusted := startOrigin("U", log, &tls.Config{Certificates: []tls.Certificate{other.leaf([]string{"untrusted.test"}, "")}}, nil)
 	expired := startOrigin("E", log, &tls.Config{Certificates: []tls.Certificate{ca.leaf([]string{"expired.test"}, "expired")}}, nil)
 	wrong := startOrigin("W", log, &tls.Config{Certificates: []tls.Certificate{ca.leaf([]string{"some-other-name.test"}, "")}}, nil)
+	// an origin that only speaks TLS 1.0, and one that takes the ClientHello and never answers
+	oldtls := startPeer("OLD", log, nil, func(p *peer, c net.Conn, idx int) {
+		buf := make([]byte, 4096)
+		c.Read(buf) // the ClientHello
+		// ServerHello: TLS 1.0, 32 octets of random, no session id, TLS_RSA_WITH_AES_128_CBC_SHA, no compression
+		body := append([]byte{0x03, 0x01}, make([]byte, 32)...)
+		body = append(body, 0x00, 0x00, 0x2f, 0x00)
+		hs := append([]byte{0x02, 0x00, 0x00, byte(len(body))}, body...)
+		c.Write(append([]byte{0x16, 0x03, 0x01, 0x00, byte(len(hs))}, hs...))
+		io.Copy(io.Discard, c)
+	})
+	tlsstall := startPeer("TS", log, nil, func(p *peer, c net.Conn, idx int) {
+		io.Copy(io.Discard, c)
+	})
 	// upstream proxy rejecting CONNECT by target name
 	rej := startPeer("R", log, nil, func(p *peer, c net.Conn, idx int) {
 		br := bufio.NewReader(c)
@@ -206,7 +220,7 @@ func newC12Env() *c12Env {
 			serveRequests(p, &bufConn{Conn: c, r: br}, idx, true, faultResponder)
 		}
 	})
-	env.peers = []*peer{o, ot, a, garbage, untrusted, expired, wrong, rej}
+	env.peers = []*peer{o, ot, a, garbage, untrusted, expired, wrong, rej, oldtls, tlsstall}
 	mk := func(fc fwdCfg) *fwd {
 		f, err := startFwd(fc)
 		if err != nil {
@@ -221,6 +235,8 @@ func newC12Env() *c12Env {
 		f.mapName("untrusted.test:443", untrusted.addr())
 		f.mapName("expired.test:443", expired.addr())
 		f.mapName("wrongname.test:443", wrong.addr())
+		f.mapName("oldtls.test:443", oldtls.addr())
+		f.mapName("tlsstall.test:443", tlsstall.addr())
 		f.mapName(addrA, a.addr())
 		f.mapName("rejproxy.test:3128", rej.addr())
 		f.mu.Lock()
@@ -231,7 +247,7 @@ func newC12Env() *c12Env {
 	}
 	env.direct = mk(fwdCfg{Name: "fwd", Localhost: "allow"})
 	env.via = mk(fwdCfg{Name: "fwd", Localhost: "allow", Upstream: "http://" + addrA})
-	env.mitm = mk(fwdCfg{Name: "fwd", Localhost: "allow", MITM: true})
+	env.mitm = mk(fwdCfg{Name: "fwd", Localhost: "allow", MITM: true, OriginTLSHandshake: 3 * time.Second})
 	env.byLog = map[string][3]*fwd{}
 	for _, m := range []string{"headers", "body"} {
 		env.byLog[m] = [3]*fwd{mk(fwdCfg{Name: "fwd", Localhost: "allow", LogHTTP: m}),
@@ -362,6 +378,10 @@ func (env *c12Env) faultCase(c c12Case, k int, rejf *fwd) map[string]any {
 		host = "expired.test"
 	case "tls_wrongname":
 		host = "wrongname.test"
+	case "tls_oldversion":
+		host = "oldtls.test"
+	case "tls_stall":
+		host = "tlsstall.test"
 	case "proxy_connect_403":
 		host = "reject403.test"
 	case "proxy_connect_403_body":
